@@ -63,6 +63,13 @@ pub struct AgentSim {
     pub scale: bool,
     pub huge: bool,
     pub big_requests: bool,
+    /// C07 only: a twin agent that is handed the same calls *except* the responses the agent under
+    /// test dropped.  "Forged responses can neither complete, cancel nor delay a transaction" means
+    /// exactly that the two agents answer every other call identically.
+    pub shadow: Option<StunAgent>,
+    pub shadow_skipped: u64,
+    inv_counter: u64,
+    stress_done: bool,
     grams: [u8; 2],
 }
 
@@ -112,6 +119,10 @@ impl AgentSim {
         // from most destinations); no property lets it influence any transmission
         let remote = if ctx.ch.rare(1, 3) { Some(*ctx.ch.pick(&pool)) } else { None };
         Self {
+            shadow: if ctx.cfg.prop == "C07" { Some(new_agent_with(tcp, local, remote)) } else { None },
+            shadow_skipped: 0,
+            inv_counter: 0,
+            stress_done: false,
             owns_clock: false,
             remote,
             agent: new_agent_with(tcp, local, remote),
@@ -153,6 +164,19 @@ impl AgentSim {
         if let Some(v) = panic_violation(&self.prop, &r, &call_short(&c)) {
             return Err(v);
         }
+        if let Some(sh) = self.shadow.as_mut() {
+            let dropped = matches!((&c, &r), (Call::Handle { .. }, Reply::Drop | Reply::ParseErr(_)));
+            if dropped {
+                self.shadow_skipped += 1;
+            } else {
+                let r2 = exec(sh, &c, self.base);
+                if r2 != r {
+                    let v = Violation::new("C07", "dropped_responses_change_nothing", call_kind(&c), format!("after {} dropped message(s), `{}` answered {}; a twin agent that was handed the same calls without the dropped messages answered {}", self.shadow_skipped, call_short(&c), r.short(), r2.short()));
+                    ev!(ctx, "  !! {} [{}]: {}", v.clause, v.site, v.message);
+                    return Err(v);
+                }
+            }
+        }
         self.history.push((c, r.clone()));
         Ok(r)
     }
@@ -163,6 +187,39 @@ impl AgentSim {
         tids.extend(self.extra_tids.iter().copied());
         tids.sort();
         tids.dedup();
+        // With many transactions / peers (scale runs) a full sweep after every call would dominate
+        // the run: then every 16th sweep is full (and the last one, in the drain), the others query
+        // what the last call touched plus a rotating window, so that every id and address is still
+        // queried regularly.  The choice is a function of a counter, not of the PRNG.
+        self.inv_counter += 1;
+        let full = (tids.len() <= 14 && self.pool.len() <= 14) || self.inv_counter % 16 == 0 || self.model.live_count() == 0;
+        let mut pool_sel: Vec<SocketAddr> = self.pool.clone();
+        if !full {
+            let (mut t_tid, mut t_addr): (Vec<u128>, Vec<SocketAddr>) = (vec![], vec![]);
+            if let Some((c, _)) = self.history.last() {
+                match c {
+                    Call::Send { spec, to, .. } => {
+                        t_tid.push(spec.tid);
+                        t_addr.push(*to);
+                    }
+                    Call::Handle { bytes, from } => {
+                        t_tid.extend(tid_of(bytes));
+                        t_addr.push(*from);
+                    }
+                    Call::Cancel { tid } | Call::CancelRetrans { tid } | Call::Configure { tid, .. } | Call::QueryTxMut { tid } => t_tid.push(*tid),
+                    _ => {}
+                }
+            }
+            let w = self.inv_counter as usize;
+            for k in 0..6 {
+                if !tids.is_empty() {
+                    t_tid.push(tids[(w * 6 + k) % tids.len()]);
+                }
+                t_addr.push(self.pool[(w * 6 + k) % self.pool.len()]);
+            }
+            tids.retain(|t| t_tid.contains(t));
+            pool_sel.retain(|a| t_addr.contains(a));
+        }
         let mut bits = String::new();
         for tid in tids {
             let c = Call::QueryTx { tid };
@@ -179,8 +236,7 @@ impl AgentSim {
             }
         }
         bits.push('|');
-        for i in 0..self.pool.len() {
-            let addr = self.pool[i];
+        for addr in pool_sel {
             let c = Call::QueryPeer { addr };
             let r = exec(&mut self.agent, &c, self.base);
             if let Some(v) = panic_violation(&self.prop, &r, "is_validated_peer") {
@@ -243,10 +299,34 @@ impl AgentSim {
     }
 
     pub fn op_send_request(&mut self, ctx: &mut Ctx, sign_bias: u32) -> ScResult {
+        if self.huge && self.max_live > 100 && ctx.ch.rare(1, 2) && self.model.live_count() + 60 < self.max_live {
+            // an application that starts many transactions at once (ICE check list, server fan-out)
+            let n = ctx.ch.range(50, (self.max_live - self.model.live_count()) as u64).min(320);
+            ctx.st.inc("op.send_request_burst");
+            for i in 0..n {
+                self.send_one_request(ctx, sign_bias, 0)?;
+                // some of them get their own (short or long) schedule
+                if ctx.ch.rare(1, 6) {
+                    let tid = self.model.txs.last().unwrap().tid;
+                    self.op_configure(ctx, Some(tid))?;
+                }
+                if i % 64 == 63 {
+                    self.invariants(ctx)?;
+                }
+            }
+            if self.model.live_count() > 256 {
+                ctx.st.inc("probe.more_than_256_transactions_outstanding");
+            }
+            return Ok(());
+        }
+        self.send_one_request(ctx, sign_bias, 1)
+    }
+
+    fn send_one_request(&mut self, ctx: &mut Ctx, sign_bias: u32, allow_special: u32) -> ScResult {
         // which id: fresh (0), id still outstanding (1), id of a finished transaction (2)
         let live: Vec<u128> = self.model.live().map(|t| t.tid).collect();
         let done: Vec<u128> = self.model.txs.iter().filter(|t| t.status != Status::Live).map(|t| t.tid).filter(|t| !live.contains(t)).collect();
-        let mut kind = ctx.ch.weighted(&[8, 2, 2]);
+        let mut kind = if allow_special == 0 { 0 } else { ctx.ch.weighted(&[8, 2, 2]) };
         if kind == 1 && live.is_empty() {
             kind = 0;
         }
@@ -810,6 +890,45 @@ impl AgentSim {
     /// peer address is checked like the read-only one (C18), and the invariants that follow every
     /// operation show that nothing else moved.
     pub fn op_misc(&mut self, ctx: &mut Ctx) -> ScResult {
+        if self.scale && !self.stress_done && ctx.ch.rare(1, 6) {
+            self.stress_done = true;
+            // counter stress: between two adjacent polls exactly 2^8 / 2^16 (+-1) calls that hand out
+            // the mutable handle, the last of which shortens a transaction's schedule so that it is
+            // due at once — whatever is cached from the first poll must not survive them
+            let live: Vec<u128> = self.model.live().filter(|t| !t.sc && !t.rc).map(|t| t.tid).collect();
+            if !live.is_empty() {
+                let tid = *ctx.ch.pick(&live);
+                let n = if ctx.ch.rare(1, 6) { *ctx.ch.pick(&[65_535u64, 65_536, 65_537, 131_071, 131_072]) } else { *ctx.ch.pick(&[255u64, 256, 257, 511, 512]) };
+                let now = self.now;
+                self.poll_at(ctx, now, 6)?;
+                ctx.st.inc("op.exact_count_of_calls_between_polls");
+                // alternate the two kinds of call that go through the mutable handle
+                let cfg = (ctx.ch.range(200, 60_000), ctx.ch.range(0, 8) as u32, ctx.ch.range(0, 60_000));
+                for i in 0..n - 1 {
+                    let c = if i % 2 == 0 { Call::Configure { tid, rto_ms: cfg.0, n: cfg.1, last_ms: cfg.2 } } else { Call::QueryTxMut { tid } };
+                    let r = exec(&mut self.agent, &c, self.base);
+                    if let Some(sh) = self.shadow.as_mut() {
+                        let _ = exec(sh, &c, self.base);
+                    }
+                    let chk = if i % 2 == 0 { self.model.on_configure(tid, cfg.0, cfg.1, cfg.2, &r) } else { self.model.check_query_tx(tid, &r) };
+                    if let Err(v) = chk {
+                        return Err(self.fail(ctx, v));
+                    }
+                    self.history.push((c, r));
+                }
+                if self.model.live_idx(tid).is_some() {
+                    let (rto, nn, last) = (1u64, ctx.ch.range(1, 8) as u32, ctx.ch.range(0, 50));
+                    let r = self.call(ctx, Call::Configure { tid, rto_ms: rto, n: nn, last_ms: last })?;
+                    if let Err(v) = self.model.on_configure(tid, rto, nn, last, &r) {
+                        return Err(self.fail(ctx, v));
+                    }
+                    let at = self.now + ctx.ch.below(3) * MS;
+                    self.poll_at(ctx, at, 0)?;
+                }
+                self.gram(ctx, 0x91);
+                return Ok(());
+            }
+        }
         match ctx.ch.below(3) {
             0 => {
                 let n = ctx.ch.range(0, 40) as usize;
